@@ -176,7 +176,35 @@ func (k *c14) scenario(c *core.Ctx, i int) c14Scenario {
 		}
 	case pick < 75:
 		sc.kind = "include"
-		switch r.Intn(11) {
+		switch r.Intn(13) {
+		case 11, 12:
+			// wide and nested: the root includes many files, each of which includes a leaf
+			// at its end (so every parser is still busy when it spawns the next one)
+			width := []int{9, 20, 33, 50, 80}[r.Intn(5)]
+			sc.kind = fmt.Sprintf("include-wide-nested-%d", width)
+			var b strings.Builder
+			b.WriteString(valid + "\n")
+			bad := -1
+			if r.Intn(2) == 0 {
+				bad = r.Intn(width)
+				sc.kind = fmt.Sprintf("include-wide-nested-bad-leaf-%d", width)
+				sc.mustFail = true
+			}
+			for d := 0; d < width; d++ {
+				fmt.Fprintf(&b, "include \"w/mid%d.knut\"\n", d)
+				var mid strings.Builder
+				for n := 0; n < 40; n++ {
+					fmt.Fprintf(&mid, "2020-01-%02d price P%dx%d 1.%d CHF\n", 1+n%28, d, n, n)
+				}
+				fmt.Fprintf(&mid, "include \"leaf%d.knut\"\n", d)
+				set(fmt.Sprintf("w/mid%d.knut", d), mid.String())
+				leaf := fmt.Sprintf("2020-02-%02d price Q%d 2 CHF\n", 1+d%28, d)
+				if d == bad {
+					leaf = "2020-02-01 price Q CHF\n"
+				}
+				set(fmt.Sprintf("w/leaf%d.knut", d), leaf)
+			}
+			set("main.knut", b.String())
 		case 0:
 			sc.kind = "include-self"
 			set("main.knut", valid+"\ninclude \"main.knut\"\n")
